@@ -243,6 +243,17 @@ async fn drain_events(rx: &mut tokio::sync::mpsc::Receiver<NetworkEvent>, w: &Wo
 
 fn main() {
     std::panic::set_hook(Box::new(|_| {}));
+    // real nodes always run with a tracing subscriber, and `tracing` evaluates the arguments of
+    // `error!`/`warn!`/... only for enabled callsites: format every event into a sink so that a panicking
+    // log argument surfaces here (as the `panic` class) exactly as it would in a node
+    let _ = tracing_subscriber::fmt()
+        .with_max_level(match std::env::var("C08_LOG_LEVEL").as_deref() {
+            Ok("debug") => tracing::Level::DEBUG,
+            Ok("error") => tracing::Level::ERROR,
+            _ => tracing::Level::TRACE,
+        })
+        .with_writer(std::io::sink)
+        .try_init();
     let rt = tokio::runtime::Builder::new_current_thread().enable_all().build().unwrap();
     let stdin = std::io::stdin();
     let out = std::io::stdout();
